@@ -611,3 +611,18 @@ func Token(classOf func(b byte) string, rejectInvalid bool) *lts.LTS {
 	b.L.Start = s
 	return b.L
 }
+
+// NumberExact: exactly one RFC 8259 number and nothing else (the input handed to the decimal fallback).
+func NumberExact() *lts.LTS {
+	b := NewB("R-number(exact)")
+	end := b.S("NUMX/END")
+	b.rest(end, "trailing byte")
+	b.eof(end, true)
+	start := b.S("NUMX/START")
+	c := &Ctx{Name: "NUMX", After: end}
+	b.numberEdges(start, c)
+	b.rest(start, "not a number")
+	b.eof(start, false)
+	b.L.Start = start
+	return b.L
+}
